@@ -69,7 +69,7 @@ Lemma pin__LuaASTEchoWriter___walk_StatWhile_ok : pin__LuaASTEchoWriter___walk_S
 Proof. reflexivity. Qed.
 Lemma pin__LuaASTEchoWriter___walk_StatRepeat_ok : pin__LuaASTEchoWriter___walk_StatRepeat = [198; 38; 231; 139; 19; 40; 81; 69].
 Proof. reflexivity. Qed.
-Lemma pin__LuaASTEchoWriter___walk_StatIf_ok : pin__LuaASTEchoWriter___walk_StatIf = [176; 239; 176; 162; 116; 78; 91; 209].
+Lemma pin__LuaASTEchoWriter___walk_StatIf_ok : pin__LuaASTEchoWriter___walk_StatIf = [53; 1; 170; 108; 117; 171; 148; 138].
 Proof. reflexivity. Qed.
 Lemma pin__LuaASTEchoWriter___walk_StatForStep_ok : pin__LuaASTEchoWriter___walk_StatForStep = [179; 11; 206; 48; 217; 14; 174; 176].
 Proof. reflexivity. Qed.
